@@ -1,4 +1,4 @@
-import CardVerif.Spec.GinMeldRules
+import CardModel.Spec.GinMeldRules
 import CardVerif.Proofs.Layoff
 /-!
 # C12 — gin lay-offs: the defender's deadwood is the true minimum and the lay-offs are legal
